@@ -996,6 +996,7 @@ enum {
 	ITER_METHOD_NORMAL,
 	ITER_METHOD_NEXT,
 	ITER_METHOD_LEFTMOST,
+	ITER_METHOD_EMPTY,
 };
 
 
@@ -1011,9 +1012,12 @@ iter_set_info(lzma_index_iter *iter)
 	// group in the index, because that may be reallocated by
 	// lzma_index_cat().
 	if (group == NULL) {
-		// There are no groups.
+		// There are no groups. This must be distinguishable from
+		// "the first Record of the only group has been returned"
+		// because Blocks can be appended to this Stream while
+		// the iterator is pointing to it.
 		assert(stream->groups.root == NULL);
-		iter->internal[ITER_METHOD].s = ITER_METHOD_LEFTMOST;
+		iter->internal[ITER_METHOD].s = ITER_METHOD_EMPTY;
 
 	} else if (i->streams.rightmost != &stream->node
 			|| stream->groups.rightmost != &group->node) {
@@ -1136,6 +1140,11 @@ lzma_index_iter_next(lzma_index_iter *iter, lzma_index_iter_mode mode)
 	const index_group *group = NULL;
 	size_t record = iter->internal[ITER_RECORD].s;
 
+	// True if the Stream had no Blocks when the iterator was positioned
+	// to it but Blocks have been appended to it since then. Then the
+	// first Record of the Stream hasn't been returned yet.
+	bool first_record_pending = false;
+
 	// If we are being asked for the next Stream, leave group to NULL
 	// so that the rest of the this function thinks that this Stream
 	// has no groups and will thus go to the next Stream.
@@ -1154,6 +1163,12 @@ lzma_index_iter_next(lzma_index_iter *iter, lzma_index_iter_mode mode)
 		case ITER_METHOD_LEFTMOST:
 			group = (const index_group *)(
 					stream->groups.leftmost);
+			break;
+
+		case ITER_METHOD_EMPTY:
+			group = (const index_group *)(
+					stream->groups.leftmost);
+			first_record_pending = group != NULL;
 			break;
 		}
 	}
@@ -1176,6 +1191,12 @@ again:
 
 		// Start from the first Record in the Stream.
 		group = (const index_group *)(stream->groups.leftmost);
+		record = 0;
+
+	} else if (first_record_pending) {
+		// Blocks were appended to a Stream that was empty when
+		// the iterator was positioned to it. Return the first one.
+		first_record_pending = false;
 		record = 0;
 
 	} else if (group != NULL && record < group->last) {
